@@ -54,6 +54,7 @@ def _tol(vmax):
 
 LAYOUTS = {
     "stations": dict(kind="site", ns=2),
+    "station1": dict(kind="site", ns=1),
     "grid2x3": dict(kind="grid", nlat=2, nlon=3),
     "grid3x2": dict(kind="grid", nlat=3, nlon=2),
     "grid1x2": dict(kind="grid", nlat=1, nlon=2),
@@ -63,16 +64,18 @@ LAYOUTS = {
 @harness(P,
          quick=[dict(layout="stations", nt=2, ntime=None, gz=False, special="none", dirs="sorted"), dict(layout="stations", nt=3, ntime=2, gz=True, special="none", dirs="sorted"),
                 dict(layout="stations", nt=1, ntime=None, gz=False, special="mixed", dirs="unsorted"), dict(layout="grid2x3", nt=1, ntime=None, gz=False, special="none", dirs="sorted"),
-                dict(layout="grid3x2", nt=1, ntime=None, gz=False, special="nan_then_data", dirs="sorted"), dict(layout="stations", nt=2, ntime=1, gz=False, special="data_then_nan", dirs="sorted")],
+                dict(layout="grid3x2", nt=1, ntime=None, gz=False, special="nan_then_data", dirs="sorted"), dict(layout="stations", nt=2, ntime=1, gz=False, special="data_then_nan", dirs="sorted"),
+                dict(layout="station1", nt=1, ntime=None, gz=False, special="none", dirs="rotated3"), dict(layout="station1", nt=2, ntime=None, gz=False, special="none", dirs="rotated3", dimorder="dir_freq"),
+                dict(layout="grid2x3", nt=1, ntime=None, gz=False, special="none", dirs="sorted", dimorder="dir_freq")],
          thorough=[dict(layout=l, nt=nt, ntime=k, gz=g, special=sp, dirs=d) for l in ("stations", "grid2x3", "grid3x2", "grid1x2") for nt, k in ((2, None), (3, 2)) for g in (False, True) for sp in ("none", "mixed") for d in ("sorted", "unsorted")],
          max_paths=3000, time_budget=500, time_budget_thorough=2400, hard_timeout_thorough=2700)
-def swan_roundtrip(env, layout, nt, ntime, gz, special, dirs):
+def swan_roundtrip(env, layout, nt, ntime, gz, special, dirs, dimorder="freq_dir"):
     """to_swan -> real file -> read_swan: every cell comes back at the position it was written from, within the
     resolution of its FACTOR block; all-zero stays zero, all-missing stays missing; coordinates and times equal."""
     from wavespectra.input.swan import read_swan
     L = LAYOUTS[layout]
     f = np.array([0.1, 0.25])
-    d = np.array([0.0, 180.0]) if dirs == "sorted" else np.array([180.0, 0.0])
+    d = {"sorted": np.array([0.0, 180.0]), "unsorted": np.array([180.0, 0.0]), "rotated3": np.array([240.0, 0.0, 120.0])}[dirs]
     sp = {}
     if L["kind"] == "site":
         ns = L["ns"]
@@ -96,6 +99,9 @@ def swan_roundtrip(env, layout, nt, ntime, gz, special, dirs):
         vals = _cells(env, "e", (nt, nlat, nlon, len(f), len(d)), sp)
         ds = xr.Dataset({"efth": (("time", "lat", "lon", "freq", "dir"), vals)},
                         coords={"time": _times(nt), "lat": -30.0 - 1.5 * np.arange(nlat)[::-1], "lon": 150.0 + 0.25 * np.arange(nlon), "freq": f, "dir": d})
+    if dimorder == "dir_freq":
+        # the caller keeps direction before frequency in memory (labels unchanged)
+        ds["efth"] = ds.efth.transpose(*[x for x in ds.efth.dims if x not in ("freq", "dir")], "dir", "freq")
     # which cell holds the block maximum only selects FACTOR; to keep one path per layout it is fixed per
     # position (a different cell at every position), all other cells free below it
     ev = np.asarray(ds.efth.values, dtype=object)
